@@ -177,7 +177,7 @@ theorem evConnected_good {w : World} {k : Nat} {p : World × Option Err} (hE : e
     · cases hE
   · cases hE
 
-theorem evConnFail_good {w w' : World} {k : Nat} (h : evConnFail w k = some w') : Good w w' := by
+theorem evConnFail_good {w w' : World} {k : Nat} (h : evConnFail w k e = some w') : Good w w' := by
   unfold evConnFail at h
   split at h
   · cases h; exact fireFail_good _ _ _
@@ -429,9 +429,9 @@ theorem K_step {w : World} (h : K w) (e : Event) : K (step w e) := by
     cases hE : evConnected w k with
     | none => exact h
     | some p => exact K_good h (evConnected_good hE)
-  | connFail k =>
+  | connFail k e =>
     simp only [step]
-    cases hE : evConnFail w k with
+    cases hE : evConnFail w k e with
     | none => exact h
     | some w' => exact K_good h (evConnFail_good hE)
   | data i d => exact K_good h (evData_good w i d)
